@@ -6,9 +6,12 @@ gvars == <<vars, h, fin>>
 KeySeq(S) == LET RECURSIVE F(_)
                  F(T) == IF T = {} THEN <<>> ELSE LET k == CHOOSE x \in T : TRUE IN <<k>> \o F(T \ {k})
              IN F(S)
+\* cluster_table.data may also describe sub-clusters that gslb.data does not (yet) use: keys of clusters of the
+\* configuration whose sub-cluster is not configured.  They have no effect until a gslb reload brings the sub-cluster in.
+Extras(c0) == SUBSET {k \in Keys : (\E x \in c0 : x[1] = k[1]) /\ ~(<<k[1], k[2]>> \in SubsOf(c0))}
 Op(o) == Len(h) <= MaxOps /\ h' = Append(h, o) /\ fin' = FALSE
-GInit == Init /\ h = <<[op |-> "init", conf |-> KeySeq(conf), zero |-> KeySeq(zero)]>> /\ fin = FALSE
-GNext == \/ \E c1 \in Confs : \E z1 \in ZeroSets(c1) : Reload(c1, z1) /\ Op([op |-> "reload", conf |-> KeySeq(c1), zero |-> KeySeq(z1)])
+GInit == Init /\ (\E e0 \in Extras(conf) : h = <<[op |-> "init", conf |-> KeySeq(conf), zero |-> KeySeq(zero), extra |-> KeySeq(e0)]>>) /\ fin = FALSE
+GNext == \/ \E c1 \in Confs : \E z1 \in ZeroSets(c1) : \E e1 \in Extras(c1) : Reload(c1, z1) /\ Op([op |-> "reload", conf |-> KeySeq(c1), zero |-> KeySeq(z1), extra |-> KeySeq(e1)])
          \/ \E k \in Keys : Touch(k) /\ Op([op |-> "touch", k |-> k, avail |-> ost'[live[k]].avail,
                                              d |-> ost'[live[k]].conn - ost[live[k]].conn])
          \/ \E c \in Clusters : Select(c) /\ Op([op |-> "select", c |-> c])
